@@ -120,6 +120,14 @@ def order(ctx: Any) -> List[Ob]:
             inc = [st for st in walk_local_ordered(g.node) if isinstance(st, ast.AugAssign) and norm(st.target) == num_v]
             okr = len(inst_def) == 1 and isinstance(inst_def[0], ast.Call) and call_name(inst_def[0]) == 'instance_name_from_service_info' and len(n0) == 1 and norm(n0[0].value) == '2' and len(inc) == 1 and norm(inc[0].value) == '1' and isinstance(inc[0].op, ast.Add)
     obs.append(ob(R, g, ren[0] if ren else 'info.name = ...', "renaming proceeds through '<instance>-2', '-3', ... under the same type", okr))
+    # a (re-)registered or renamed description announces rebuilt records: the registry clears its record memos on insertion
+    from .c03 import memo as _memo
+
+    for o in _memo.fn(ctx):
+        if 'before inserting' in o.statement or 're-inserts through _add' in o.statement:
+            o.rule = R
+            o.statement += ' -- else a renamed or re-registered service announces records built for the old name / TTLs'
+            obs.append(o)
     # cooperating responders skip probing
     oc3, _ = traces(ctx, g, {g.params[3]: True}, lambda n, e: ['SEND' for c in n.calls() if call_name(c) == 'async_send'], loop_bound=1)
     obs.append(ob(R, g, 'cooperating_responders=True', 'no probing when responders cooperate', all('SEND' not in t for t in oc3) and bool(oc3)))
@@ -201,6 +209,14 @@ def const(ctx: Any) -> List[Ob]:
         except lf.NotLinear:
             pass
     obs.append(ob(R, g, waits[0] if waits else 'async_wait', 'between probes the registration waits for exactly the time remaining to the next probe (and wakes early on new records)', okw))
+    # the clock value compared with the next-probe time is always a fresh clock read (a wait can end early)
+    now_defs = [st for st in walk_local_ordered(g.node) if isinstance(st, ast.Assign) and any(norm(t) == roles['now'] for t in st.targets)]
+    fresh = bool(now_defs) and all(isinstance(st.value, ast.Call) and call_name(st.value) == 'current_time_millis' for st in now_defs)
+    cfgg = cfg_of(g.node)
+    wait_nodes = cfgg.nodes_calling('async_wait')
+    reread = [n for n in cfgg.nodes if n.kind == 'stmt' and n.ast in now_defs]
+    after = all(any(cfgg.dominates(w, r) for r in reread) for w in wait_nodes)
+    obs.append(ob(R, g, 'now = current_time_millis()', 'the time compared with the next probe time is re-read from the clock after every wait (the wait returns early on any new record; pretending the interval elapsed would fire the probes back to back)', fresh and after and bool(wait_nodes), '' if fresh else 'the clock value is synthesised: ' + '; '.join(norm(st)[:60] for st in now_defs if not (isinstance(st.value, ast.Call) and call_name(st.value) == 'current_time_millis'))))
     b = zc.methods['_async_broadcast_service']
     sl = [c for c in walk_local_ordered(b.node) if isinstance(c, ast.Call) and call_name(c) == 'sleep']
     oks = len(sl) == 1 and isinstance(sl[0].args[0], ast.Call) and call_name(sl[0].args[0]) == 'millis_to_seconds' and norm(sl[0].args[0].args[0]) == b.params[2]
